@@ -1,7 +1,9 @@
 #!/bin/bash
 # process_seed.sh <prop> <id> <worktree> <outdir> : run the check on the seeded worktree, confirm the seed, print both
+# (runs from the tree this script is in, so that it can work on an rsync snapshot of /verif while /verif is edited)
 prop=$1; id=$2; wt=$3; out=$4
-cd /verif
-(VERIF_REPO=$wt VERIF_WORK=/verif/.work/mut timeout 1500 ./check $prop > /tmp/ps_check.out 2>&1; echo "check rc=$?")
-grep -v "^KNOWN-FINDING" /tmp/ps_check.out | tail -3 | cut -c1-500
-timeout 1500 tools/confirm_seed.sh $id $wt $out 2>&1 | tail -2
+root=$(cd "$(dirname "$0")/.." && pwd)
+cd $root
+(VERIF_REPO=$wt VERIF_WORK=$root/.work/mut_$id timeout 1500 ./check $prop > /tmp/ps_check_$id.out 2>&1; echo "check rc=$?")
+grep -v "^KNOWN-FINDING" /tmp/ps_check_$id.out | tail -3 | cut -c1-500
+rm -rf $root/.work/mut_$id
